@@ -819,7 +819,20 @@ where
 
             let missing = matches!(err, Message::Missing(_) | Message::NoEnv(_));
 
-            if catch || (missing && orig_args.len() == args.len()) || (!missing && err.can_catch())
+            // a later round of a repeating parser that took nothing from the command line and
+            // failed on a value that did not come from it (an environment variable): items given
+            // on the command line take precedence, the variable is not consulted at all
+            let beside_the_line = *len != usize::MAX
+                && orig_args.len() == args.len()
+                && matches!(
+                    err,
+                    Message::ParseFailed(None, _) | Message::GuardFailed(None, _)
+                );
+
+            if catch
+                || beside_the_line
+                || (missing && orig_args.len() == args.len())
+                || (!missing && err.can_catch())
             {
                 std::mem::swap(&mut orig_args, args);
                 #[cfg(feature = "autocomplete")]
